@@ -1,1 +1,83 @@
-fn main(){}
+//! Verification harness for fujiapple852/trippy: drives the real code over a simulated socket and
+//! a virtual clock and writes ndjson event logs that TLC validates against the TLA+ monitors.
+
+mod clock;
+mod gen;
+mod run;
+mod scenario;
+mod sim;
+mod wire;
+
+use scenario::Scenario;
+use serde_json::json;
+use std::collections::HashMap;
+use std::io::Write;
+
+fn arg<'a>(args: &'a [String], name: &str) -> Option<&'a str> {
+    args.iter().position(|a| a == name).and_then(|i| args.get(i + 1)).map(String::as_str)
+}
+
+fn cmd_sim(args: &[String]) -> i32 {
+    let seed: u64 = arg(args, "--seed").and_then(|s| s.parse().ok()).unwrap_or(1);
+    let n: usize = arg(args, "--n").and_then(|s| s.parse().ok()).unwrap_or(10);
+    let out = arg(args, "--out").unwrap_or("/dev/stdout");
+    let scenarios: Vec<Scenario> = if let Some(path) = arg(args, "--scenarios") {
+        let txt = std::fs::read_to_string(path).expect("read scenarios");
+        txt.lines()
+            .filter(|l| !l.trim().is_empty())
+            .map(|l| serde_json::from_str(l).expect("scenario json"))
+            .collect()
+    } else {
+        match arg(args, "--family").unwrap_or("loop") {
+            "loop" => gen::gen_loop(seed, n, "loop"),
+            "noise" => gen::gen_noise(seed, n),
+            "fault" => gen::gen_fault(seed, n),
+            "timing" => gen::gen_timing(seed, n),
+            "sched" => gen::gen_sched(seed, n),
+            f => {
+                eprintln!("unknown family {f}");
+                return 2;
+            }
+        }
+    };
+    if let Some(path) = arg(args, "--dump-scenarios") {
+        let mut f = std::fs::File::create(path).expect("create");
+        for sc in &scenarios {
+            writeln!(f, "{}", serde_json::to_string(sc).unwrap()).unwrap();
+        }
+    }
+    // silence the default panic message: a panic in the code under test is data
+    std::panic::set_hook(Box::new(|_| {}));
+    let mut f = std::io::BufWriter::new(std::fs::File::create(out).expect("create out"));
+    let mut stats = Vec::new();
+    for sc in &scenarios {
+        let r = run::run_scenario(sc);
+        for e in &r.events {
+            writeln!(f, "{e}").unwrap();
+        }
+        let delivered: HashMap<String, u64> = r.counters.delivered.clone();
+        stats.push(json!({"id":sc.id,"cell":format!("{}/{}/{}/{}/{}", sc.proto, sc.fam, sc.strat, sc.ports, if sc.privileged {"priv"} else {"unpriv"}),
+            "events":r.events.len(),"sends":r.counters.sends,"wire":r.counters.wire,
+            "recv_calls":r.counters.recv_calls,"delivered":delivered,"faults_fired":r.counters.faults_fired,
+            "panicked":r.panicked,
+            "shape":format!("{}p/{:?}/{}-{}-{}", sc.topo.paths.len(), sc.topo.paths.iter().map(|p| p.dist).collect::<Vec<_>>(), sc.first_ttl, sc.max_ttl, sc.max_inflight),
+            "end": r.events.last()}));
+    }
+    f.flush().unwrap();
+    if let Some(path) = arg(args, "--stats") {
+        std::fs::write(path, serde_json::to_string(&stats).unwrap()).unwrap();
+    }
+    0
+}
+
+fn main() {
+    let args: Vec<String> = std::env::args().collect();
+    let code = match args.get(1).map(String::as_str) {
+        Some("sim") => cmd_sim(&args[2..]),
+        _ => {
+            eprintln!("usage: vh sim --family F --seed S --n N --out FILE [--stats FILE]");
+            2
+        }
+    };
+    std::process::exit(code);
+}
